@@ -12,7 +12,9 @@
  * which operators ran (C12). */
 #ifdef SPEC_PART_MODEL
 #include "prelude.h"
-#define VEC_CAP 40
+#ifndef VEC_CAP
+#define VEC_CAP 12
+#endif
 #include "stl_model.h"
 #endif
 
@@ -201,7 +203,12 @@ static void build_tree(struct TbfVerifTree *t)
 {
   /* occupancy: any non-empty subset of the NLEAF leaf cells */
   long n = 0;
+#ifdef CFG_OCC
+  /* concrete configuration (enumerated by the runner): occupancy mask CFG_OCC, cut masks CFG_CUTS(level) */
+  for(long i = 0; i < NLEAF; ++i) { g_occ[i] = (CFG_OCC >> i) & 1; if(g_occ[i]) g_cells[LEAFLVL][n++] = i; }
+#else
   for(long i = 0; i < NLEAF; ++i) { g_occ[i] = nondet_bool(); if(g_occ[i]) g_cells[LEAFLVL][n++] = i; }
+#endif
   __CPROVER_assume(n >= 1);
   g_ncells[LEAFLVL] = n;
   for(long lv = LEAFLVL - 1; lv >= 0; --lv) {            /* ancestor closure, sorted, no duplicates */
@@ -214,7 +221,11 @@ static void build_tree(struct TbfVerifTree *t)
     /* any partition of the level into consecutive non-empty groups */
     long ng = 0, from = 0;
     for(long i = 0; i < MAXCELLS; ++i) if(i < g_ncells[lv]) {
+#ifdef CFG_OCC
+      _Bool cut = (i + 1 == g_ncells[lv]) || ((CFG_CUTS >> (lv * NLEAF + i)) & 1);
+#else
       _Bool cut = (i + 1 == g_ncells[lv]) || nondet_bool();
+#endif
       if(cut) {
         build_cell_group(&g_cellgroups[lv][ng], lv, from, i + 1 - from);
         if(lv == LEAFLVL) build_part_group(&g_partgroups[ng], from, i + 1 - from);
@@ -237,13 +248,17 @@ void h_dispatch(void)
   CANARY();
 }
 
-/*@ harness bounded_execute_full unwind=UNW unwindset=USET bounded=DIM,HEIGHT:all-occupancies,all-groupings,1-particle-per-leaf plain=1 defs=PLAIN_STUBS props=C01,C02,C08,C09x,C15 timeout=3000 mem=24000 */
+/*@ harness bounded_execute_full unwind=UNW unwindset=USET bounded=DIM,HEIGHT:all-occupancies,all-groupings,1-particle-per-leaf plain=1 enumerate=tree defs=PLAIN_STUBS props=C01,C02,C08,C09x,C15 timeout=3000 mem=24000 */
 void bounded_execute_full(void)
 {
   struct TbfAlgorithm algo; struct TbfVerifTree tree;
   build_tree(&tree);
   algo.configuration.treeHeight = HEIGHT;
+#ifdef CFG_STOP
+  long stop = CFG_STOP;
+#else
   long stop; __CPROVER_assume(0 <= stop && stop <= 2);
+#endif
   algo.stopUpperLevel = stop;
   ghost_cfg_equal = 1; g_ops_ran = 0; g_min_level = HEIGHT;
   ALGO_execute(&algo, &tree, 63);
@@ -260,7 +275,7 @@ void bounded_execute_full(void)
   CANARY();
 }
 
-/*@ harness bounded_execute_staged unwind=UNW unwindset=USET bounded=DIM,HEIGHT:all-occupancies,all-groupings,1-particle-per-leaf plain=1 defs=PLAIN_STUBS props=C12,C15 timeout=3000 mem=24000 */
+/*@ harness bounded_execute_staged unwind=UNW unwindset=USET bounded=DIM,HEIGHT:all-occupancies,all-groupings,1-particle-per-leaf plain=1 enumerate=tree defs=PLAIN_STUBS props=C12,C15 timeout=3000 mem=24000 */
 void bounded_execute_staged(void)
 {
   struct TbfAlgorithm algo; struct TbfVerifTree tree;
@@ -281,7 +296,7 @@ void bounded_execute_staged(void)
   CANARY();
 }
 
-/*@ harness bounded_execute_p2p_only unwind=UNW unwindset=USET bounded=DIM,HEIGHT:all-occupancies,all-groupings plain=1 defs=PLAIN_STUBS props=C12,C15 timeout=3000 mem=24000 */
+/*@ harness bounded_execute_p2p_only unwind=UNW unwindset=USET bounded=DIM,HEIGHT:all-occupancies,all-groupings plain=1 enumerate=tree defs=PLAIN_STUBS props=C12,C15 timeout=3000 mem=24000 */
 void bounded_execute_p2p_only(void)
 {
   struct TbfAlgorithm algo; struct TbfVerifTree tree;
